@@ -77,6 +77,34 @@ fn main() {
         if let Ok(ast) = quiver_compiler_parse_ast(&src) { let f = vh::c17::fmt(&ast, &src); println!("--- formatted ---\n{}--- again ---\n{}", f, quiver_compiler_parse_ast(&f).map(|a| vh::c17::fmt(&a, &f)).unwrap_or("<reparse failed>".into())); }
         return;
     }
+    if args.len() >= 2 && args[1] == "refsem-cal" {
+        vh::pool::quiet_panics();
+        let items = vh::corpus::load("/repo");
+        let mods = vh::refsem::std_sources("/repo");
+        let b = vh::qv::builtins();
+        let (mut agree, mut disagree, mut unsup, mut other) = (0, 0, 0, 0);
+        let mut reasons: std::collections::BTreeMap<String, usize> = Default::default();
+        let only: Option<&String> = args.get(2);
+        for it in &items {
+            if !it.origin.starts_with("tests/") && !it.origin.starts_with("docs") { continue; }
+            if let Some(o) = only { if !it.src.contains(o.as_str()) { continue; } }
+            let compiled = match std::panic::catch_unwind(|| vh::qv::run_source(&it.src, &b)) { Ok(Ok((_, _, run))) => run.outcome, _ => { other += 1; continue; } };
+            let src = it.src.clone(); let mods2 = mods.clone();
+            let h = std::thread::Builder::new().stack_size(512 << 20).spawn(move || vh::refsem::evaluate(&src, &mods2).0).unwrap();
+            let Ok(reference) = h.join() else { other += 1; continue };
+            match (&compiled, &reference) {
+                (_, vh::refsem::Outcome::Unsupported(r)) => { unsup += 1; *reasons.entry(r.clone()).or_insert(0) += 1; }
+                (_, vh::refsem::Outcome::Budget) => { other += 1; }
+                (vh::qv::RunOutcome::Value(c), vh::refsem::Outcome::Value(r)) => { if vh::refsem::normalize_cv(c) == vh::refsem::normalize_cv(r) { agree += 1; } else { disagree += 1; if disagree <= 40 || only.is_some() { println!("DISAGREE [{}]\n{}\n  compiled  => {}\n  reference => {}\n", it.origin, it.src.trim(), c.show(), r.show()); } } }
+                (vh::qv::RunOutcome::Error(_), vh::refsem::Outcome::Error(_)) => agree += 1,
+                (c, r) => { disagree += 1; if disagree <= 40 || only.is_some() { println!("DISAGREE-KIND [{}]\n{}\n  compiled  => {:?}\n  reference => {:?}\n", it.origin, it.src.trim(), c, r); } }
+            }
+        }
+        println!("agree={} disagree={} unsupported={} other={}", agree, disagree, unsup, other);
+        let mut rs: Vec<_> = reasons.into_iter().collect(); rs.sort_by_key(|x| std::cmp::Reverse(x.1));
+        for (r, n) in rs.iter().take(25) { println!("  unsupported {:4} {}", n, r); }
+        return;
+    }
     if args.len() >= 2 && args[1] == "corpus" {
         let items = vh::corpus::load("/repo");
         let parse_ok = items.iter().filter(|i| quiver_compiler_parse(&i.src)).count();
